@@ -21,6 +21,9 @@ func main() {
 		dump(os.Args[2:])
 		return
 	}
+	if len(os.Args) > 1 && os.Args[1] == "matrix" {
+		os.Exit(rules.Matrix(os.Args[2:]))
+	}
 	prop := flag.String("prop", "", "property id (C01..C20)")
 	tier := flag.String("tier", "quick", "quick|thorough")
 	repo := flag.String("repo", "/repo", "repository to analyse")
